@@ -255,18 +255,37 @@ theorem C12_edit_needs_watch :
     jacAt witnessMM [1, 2] ≠ jacAt witnessMMEdited [1, 2] ∧ (jacAt witnessMMEdited [1, 2]).isSome = true :=
   ⟨by decide +kernel, by decide +kernel, by decide +kernel, by decide +kernel⟩
 
-/-- **exception safety of the closure** (seed C12-r4-1's direction): the model is edited into one that does not convert
-    (a rate law that takes `time`), the integrator calls the Jacobian — the compilation raises, the exception escapes —
-    and calls it again (the next `simulate`).  With the glue of the current source the closure remembers nothing from
-    the failed attempt: the second call compiles again and raises again.  With the two statements of the recompile
-    branch in the other order (`compileBeforeStore := false`: remember first, compile then) the second call is
-    answered with the matrix compiled for the OLD model. -/
+/-- **the conversion replaces the model's cache object** (`to_symbolic_model` starts with `model._create_cache()`), so the
+    object to remember is the one in place AFTER compiling, and it has to be stored after `_compile_jac()` has returned.
+    With the glue of the current source the history `call; update_parameter; call; call; call` compiles exactly once, at
+    the first call after the update.  With the cache object read before compiling (`glueReadBefore`), or with the stores
+    placed before the compilation (`glueStoreFirst`, seed C12-r4-1's order), every call after the update compiles again —
+    the matrices stay right (`C12_sim_history` does not need these two facts for correctness of the matrices; `GlueOk`
+    demands them for this theorem and for `C12_no_needless_recompile`). -/
+theorem C12_cache_object_replaced_by_conversion :
+    let ops : List SimOp := [.call 0 [1, 2], .setPar "c2" 7, .call 0 [1, 2], .call 0 [1, 2], .call 0 [1, 2]]
+    histCompiles expectedGlue witnessMM ops = some [false, false, true, false, false] ∧
+    histCompiles glueReadBefore witnessMM ops = some [true, false, true, true, true] ∧
+    histCompiles glueStoreFirst witnessMM ops = some [false, false, true, true, true] ∧
+    GlueOk glueReadBefore = false ∧ GlueOk glueStoreFirst = false :=
+  ⟨by decide +kernel, by decide +kernel, by decide +kernel, by decide, by decide⟩
+
+/-- **a recompilation that fails leaves nothing behind**: the model is edited into one that does not convert (a rate law
+    that takes `time`), the integrator calls the Jacobian — the compilation raises, the exception escapes — and calls it
+    again (the next `simulate`): the second call compiles again and raises again; a fresh Simulator on that model has no
+    Jacobian at all. -/
 theorem C12_failed_recompile_not_remembered :
     histOuts expectedGlue witnessMM [.edit witnessMMTime, .call 0 [1, 2], .call 0 [1, 2]] = some [.upd, .raised, .raised] ∧
-    histOuts glueStoreFirst witnessMM [.edit witnessMMTime, .call 0 [1, 2], .call 0 [1, 2]]
-      = some [.upd, .raised, outOf (jacAt witnessMM [1, 2])] ∧
-    jacAt witnessMMTime [1, 2] = none ∧ GlueOk glueStoreFirst = false :=
-  ⟨by decide +kernel, by decide +kernel, by decide +kernel, by decide⟩
+    histCompiles expectedGlue witnessMM [.edit witnessMMTime, .call 0 [1, 2], .call 0 [1, 2]] = some [false, true, true] ∧
+    jacAt witnessMMTime [1, 2] = none :=
+  ⟨by decide +kernel, by decide +kernel, by decide +kernel⟩
+
+/-- **after a call that returned a matrix the closure is in step with the model**: it remembers the cache object that
+    is in place now (the one the compilation left there, if it compiled) — so, by `C12_no_needless_recompile`, the next
+    call does not compile again unless the model is edited in between. -/
+theorem C12_call_leaves_closure_in_step (s s' : SimState) (t : Rat) (xs : List Rat) (J : List (List Rat))
+    (h : s.stepG Generated.glue (.call t xs) = .ok (s', .mat J)) : ∃ cl, s'.jac = some (cl, s'.version) :=
+  mat_in_step Generated.glue C12_glue_generated s s' t xs J h
 
 /-- the equations mention only variable symbols, plain-parameter symbols and data symbols (never
     `time`, a reaction, a derived quantity or a library function's own argument name) -/
